@@ -515,7 +515,7 @@ example (rest : Bytes) : ∃ r, read toyEnv 27 exCodec (exBytes ++ rest) (Codec.
   have hcf : CodecFor exCodec exSchema :=
     .record (.cons (.map .intL) (.cons (.unionOne1 (.pointer .string)) (.cons (.pointer (.array .intI)) .nil))) rfl
   exact value_roundtrip_spec_budget toyEnv toyEnv_laws exType 8 5 8 exCodec exSchema hcf 10 27 10 8 exVal exBytes exBytes
-    rest exDatum (by rfl) (by simp [Typed, TypedFields, exType, exVal, GoField.type, isU8n]) (by omega) (by omega)
+    rest exDatum (by rfl) (by simp [Typed, TypedFields, exType, exVal, GoField.type, isU8n]; rfl) (by omega) (by omega)
     (by decide +kernel) (by rfl) (by decide +kernel)
     (by simp [RTOk, exCodec, exVal, FieldsOk, Codec.zero, inRange, Codec.ptrDepth])
     (by decide +kernel)
